@@ -270,8 +270,9 @@ def main():
     cov["explanation"] = (
         "T1 = deductive obligations generated from the current /repo source (proved for all inputs under the listed "
         "assumptions); T2 = bounded stand-in (run-time contracts + definitional oracle on the real code over the stated "
-        "scope), never counted as proved. level=proof only when every T1 obligation of the property is discharged "
-        "on this run; otherwise the property rests on T2 for the undischarged parts.")
+        "scope), never counted as proved. No property is claimed at level proof: each also rests on bounded parts; what is "
+        "proved is counted per obligation (obligations / discharged); undischarged obligations are listed as undecided "
+        "and the property then rests on T2 for those parts.")
     assumptions = list(C.ASSUME_COMMON)
     if t1:
         assumptions += t1.get("assumptions", [])
